@@ -211,7 +211,12 @@ def run(rep, tier, seed, selftest):
             stats["delta_panics"] += 1
         elif r["o"] == "rejected" and c["focus"] not in gc.UNCONSTRAINED:
             fnd.add("delta-rejects-valid", "%s %s" % (r.get("codes"), gc.canon(c)), example(c, r.get("layout"), r, None, "a valid module is rejected"))
+        elif r["o"] == "ok":
+            for issue in r.get("wf", []):
+                fnd.add("delta-xml", issue, example(c, r.get("layout"), {"wf": r["wf"]}, None, "the XML dump is not well formed"))
     all_records = [r for r in records if r["o"] == "ok"] + corpus_records
+    untraceable = len([r for r in all_records if not gc.traceable(r)])
+    all_records = [r for r in all_records if gc.traceable(r)]
     accepted, rejected = gc.validate_traces(all_records, "C16")
     for rj in rejected:
         r = rj["record"]
@@ -274,6 +279,7 @@ def run(rep, tier, seed, selftest):
         "trace_recordings": len(all_records),
         "trace_accepted": len(accepted),
         "trace_rejected": len(rejected),
+        "recordings_with_an_unreadable_dump_not_walked": untraceable,
         "distinct_findings": len(fnd.by_key),
         "tlc_derivation_reused_from_cache": bool(d.get("cached")),
         "selftests": selftests,
